@@ -461,7 +461,7 @@ ORDERS = [('corr', 'cosine'), ('spearman', 'cosine'), ('rho-a', 'corr'), ('cosin
 S_ROUTINES = ['fixed', 'bootstrap', 'crossval', 'bcv', 'dual', 'random', 'testset']
 
 
-def call_options(rng, routine, base, method):
+def call_options(rng, routine, base, method, noceil=False):
     """options of one call of `routine` that are valid on the content `base`"""
     import engines.C04_gen as G
     ctx = L.Ctx(base)
@@ -484,9 +484,15 @@ def call_options(rng, routine, base, method):
         if kind in ('k_fold', 'k_fold_pattern'):
             g['kp'] = rng.randint(1, max(1, min(2, npat // 3)))
             g['random'] = rng.random() < 0.7
+        if noceil:
+            # round 5: RDM-splitting folds, no `ceil_set` handed over, ceiling computed
+            g = {'kind': 'k_fold', 'kr': rng.randint(2, max(2, min(3, nr))), 'kp': 1,
+                 'random': rng.random() < 0.7}
         st.update(gen=g, calc_nc=True)
         if 'kp' in g and npat // g['kp'] < 3:
             st['calc_nc'] = False
+        if noceil or rng.random() < 0.4:
+            st['ceil'] = 'omit'
     elif routine in ('bcv', 'dual', 'random', 'testset'):
         st['bt'] = 'both' if routine == 'dual' else rng.choice(['both', 'rdm', 'pattern'])
         if routine == 'testset' and base.get('pat_groups') is not None and st['bt'] == 'rdm':
@@ -530,13 +536,24 @@ def gen_session(rng, plan=None):
     routines = [rng.choice(S_ROUTINES) for _ in range(3)]
     if plan in S_ROUTINES:
         routines[1] = plan
+    if plan == 'crossval-noceil':
+        routines[1] = 'crossval'
     if plan == 'theta':
         routines = [rng.choice(['fixed', 'bootstrap']), rng.choice(['fixed', 'bootstrap']), 'fixed']
     steps = []
-    a = call_options(rng, routines[0], base, m1)
+    again_after_edit = plan == 'crossval-noceil-edit'
+    if again_after_edit:
+        # round 5: the SAME crossval call without `ceil_set` (same folds: not shuffled; same method)
+        # before and after the user rewrites a data row in place — a per-fold ceiling kept from
+        # the first call (keyed by object, method, test conditions) is stale in the second
+        routines[0] = routines[1] = 'crossval'
+        m2 = m1
+    a = call_options(rng, routines[0], base, m1, noceil=again_after_edit)
+    if again_after_edit:
+        a['gen']['random'] = False
     a['label'] = 'a'
     steps.append(a)
-    if plan == 'edit-data':
+    if plan == 'edit-data' or again_after_edit:
         base_vec = base['vecs'][0]
         steps.append({'kind': 'edit', 'what': 'data', 'row': rng.randrange(n_rdm),
                       'vec': G.rand_vec(rng, n_cond, base_vec)})
@@ -546,7 +563,10 @@ def gen_session(rng, plan=None):
         other = [v for v in vals if v != vals[pos]]
         steps.append({'kind': 'edit', 'what': 'desc', 'pos': pos,
                       'value': rng.choice(other) if other else vals[pos]})
-    b = call_options(rng, routines[1], base, m2)
+    b = call_options(rng, routines[1], base, m2, noceil=(plan == 'crossval-noceil'))
+    if again_after_edit:
+        b = {k: copy.deepcopy(v) for k, v in a.items() if k != 'label'}
+        b['seed'] = rng.randrange(10 ** 6)
     if plan == 'theta' or (rng.random() < 0.5 and 'theta' in a and 'theta' in b and a['theta'] is not None):
         if a.get('theta') is None:
             a['theta'] = G.given_theta(rng, base['models'])
@@ -574,7 +594,7 @@ def gen_session(rng, plan=None):
     return {'session': 1, 'base': base, 'steps': steps}
 
 
-PLANS = ['corr-cosine', 'rerun', 'theta', 'edit-data', 'edit-desc'] + S_ROUTINES
+PLANS = ['corr-cosine', 'rerun', 'theta', 'edit-data', 'edit-desc'] + S_ROUTINES + ['crossval-noceil', 'crossval-noceil-edit']
 
 
 def generate(rng, tier):
@@ -593,9 +613,13 @@ def features(case, impl):
     seq = []
     prev = None
     steps_impl = impl.get('session') if isinstance(impl, dict) else None
+    edited, before_edit, calls_so_far = False, [], []
     for k, (st, o) in enumerate(zip(case['steps'], S['steps'])):
         if 'edit' in o:
             br.add('session:edit-' + o['edit'])
+            if o['edit'] == 'data':
+                edited = True
+                before_edit = list(calls_so_far)
             continue
         sc = conts[k]
         r = None
@@ -604,6 +628,13 @@ def features(case, impl):
         f = L.features(sc, r, obs=o)
         br.update(f['branches'])
         seq.append(sc['routine'])
+        if prev is not None and any(t in f['branches'] for t in ('crossval:no_ceil_set:rdm_split',
+                                                                 'crossval:no_ceil_set:both_split')):
+            br.add('session:crossval:no_ceil_set')
+        if prev is not None and edited and sc['routine'] == 'crossval' and not L.ceil_given(sc) \
+                and any(p_['routine'] == 'crossval' and not L.ceil_given(p_) and p_['gen'] == sc['gen']
+                        and p_['method'] == sc['method'] for p_ in before_edit):
+            br.add('session:crossval:no_ceil_set:again-after-edit')
         if prev is not None:
             br.add('session:' + sc['routine'])
             br.add('session:call-after-call')
@@ -618,6 +649,7 @@ def features(case, impl):
         if 'rerun_of' in o:
             br.add('session:rerun')
         prev = sc
+        calls_so_far.append(sc)
     if len(seq) >= 3:
         br.add('session:3calls')
     return {'routine': 'session', 'session_len': len(seq), 'n_models': len(case['base']['models']),
